@@ -46,7 +46,7 @@ def make_objective(prog: dict, record: list | None = None):
         if record is not None:
             record.append({"number": trial.number, "suggested": got})
         for step in range(prog["reports"]):
-            iv = vals[0] + 1.0 / (step + 1.5) + 1e-3 * math.sin(trial.number + step)
+            iv = vals[0] + 1.0 / (step + 1.5) + 1e-3 * math.sin(trial.number + step) - prog.get("report_shift", 0.0)
             trial.report(sign[0] * iv, step * prog.get("stride", 1))  # non-contiguous step numbers (every n-th epoch)
             if trial.should_prune():
                 raise optuna.TrialPruned()
@@ -125,7 +125,7 @@ def make_sampler(name: str, seed: int, prog: dict):
     raise ValueError(name)
 
 
-def make_pruner(name: str, mirror: bool = False):
+def make_pruner(name: str, mirror: bool = False, variant: int = 0):
     """`mirror` flips value thresholds (for the maximise <-> minimise -f twin)."""
     import optuna
 
@@ -143,8 +143,12 @@ def make_pruner(name: str, mirror: bool = False):
     if name == "patient_median":
         return P.PatientPruner(P.MedianPruner(n_startup_trials=1), patience=1, min_delta=0.01)
     if name == "threshold":
-        lo, up = 0.2, 6.0
-        return P.ThresholdPruner(lower=-up if mirror else lo, upper=-lo if mirror else up, n_warmup_steps=1)
+        lo, up = [(0.2, 6.0), (0.0, 6.0), (0.0, None), (None, 0.0)][variant % 4]      # a bound of exactly zero is a bound
+
+        def neg(x):
+            return None if x is None else -x
+
+        return P.ThresholdPruner(lower=neg(up) if mirror else lo, upper=neg(lo) if mirror else up, n_warmup_steps=1)
     if name == "wilcoxon":
         return P.WilcoxonPruner(p_threshold=0.3, n_startup_steps=1)
     raise ValueError(name)
